@@ -9,7 +9,8 @@
    identities for the real thing (rectangular mask, convolver_init m K = Ok c, native zero-filled arrays), and the theorems
    without suffix are the resulting hypothesis-free statements about InversionImagingWTilde / InversionImagingMapping. *)
 From Coq Require Import ZArith Reals Lra Lia List Bool Arith.
-From PAV Require Import Base.Res Base.NumOps Base.Sum Model.C03 Model.C03Lib Model.C04 Model.C04Lib Proofs.C04 Proofs.C04b Proofs.C04c.
+From PAV Require Import Base.Res Base.NumOps Base.Sum Model.C03 Model.C03Lib Model.C04 Model.C04Lib Proofs.C04 Proofs.C04b Proofs.C04c Proofs.C04d.
+From PAV Require Model.C06 Proofs.C06.
 Import ListNotations.
 Local Open Scope R_scope.
 
@@ -458,6 +459,20 @@ Theorem C04_curvature_wtilde_meets_spec : forall m (K : @kernel ROps) c, rectb m
   mget (@F_wt ROps c m K objs s eps) a b = mget (@F_spec ROps (@B_spec ROps m K objs) s (@unreg_flags ROps objs) eps) a b.
 Proof. exact F_wt_is_F_spec. Qed.
 
+(* ------------------------------------------------------------------ the mapper hypothesis discharged from C06's development *)
+(* wf_obj asks of a mapper that its sparse unique-mapping triple represents its dense mapping matrix.  For ANY mapper arrays
+   (mappings, sizes, weights -- rectangular and Delaunay mappers alike) satisfying C06's [mapper_ok] on the dataset's rectangular mask,
+   the matrix built by mapper_util.mapping_matrix_from (model C06) together with the triple built by
+   mapper_util.data_slim_to_pixelization_unique_from (model C06), read as a C04 encoding by [enc_of_rows], is a well-formed C04 mapper *)
+Theorem C04_c06_mapper_is_well_formed : forall (m : mask) (subs : list nat) (P : nat) (mp : list (list Z)) (sz : list nat) (wt : list (list R)),
+  rectb m = true -> PAV.Proofs.C06.mapper_ok m subs P mp sz -> (0 < length (unmasked m))%nat -> (0 < P)%nat ->
+  exists M rows,
+    @PAV.Model.C06.mapping_matrix ROps mp sz wt P (PAV.Model.C06.count_unmasked m) (PAV.Model.C06.slim_for_sub m subs)
+       (@PAV.Model.C06.sub_fractions ROps subs) = Ok M /\
+    @PAV.Model.C06.unique_from ROps mp sz wt P subs = Ok rows /\
+    forall (c : @convolver ROps) reg, wf_obj c (length (unmasked m)) (@LMapper ROps (enc_of_rows rows) M P reg).
+Proof. exact c06_mapper_is_wf_on_mask. Qed.
+
 (* ------------------------------------------------------------------ non-vacuity of the hypothesis sets *)
 (* hypotheses of C04_curvature_is_BT_Ninv_B: a 2x2 signed matrix, two different noise values, one unregularized parameter *)
 Example ex_curv_hyps :
@@ -551,6 +566,16 @@ Example ex_reads :
   = [@OutM ROps [[5]]; @OutM ROps [[5 + 2]]; @OutM ROps [[5]]; @OutM ROps [[5 + 2]]].
 Proof. reflexivity. Qed.
 
+(* the hypotheses of C04_c06_mapper_is_well_formed: C06's example mapper (2 unmasked pixels, sub-sizes 1 and 2, repeated and 3-fold
+   mappings onto 4 source pixels) *)
+Example ex_c06_mapper_hyps :
+  let m := [[true; false]; [false; true]] in
+  rectb m = true /\ (0 < length (unmasked m))%nat /\
+  PAV.Proofs.C06.mapper_ok m [1; 2]%nat 4 [[2; -1; -1]; [0; 1; 3]; [3; -1; -1]; [1; 1; 2]; [0; 3; -1]]%Z [1; 3; 1; 3; 2]%nat.
+Proof.
+  cbv zeta. split; [reflexivity|]. split; [vm_compute; lia|]. apply PAV.Proofs.C06.mapper_okb_ok. vm_compute. reflexivity.
+Qed.
+
 Print Assumptions C04_data_vector_is_BT_Ninv_d.
 Print Assumptions C04_curvature_is_BT_Ninv_B.
 Print Assumptions C04_added_to_diag.
@@ -615,3 +640,4 @@ Print Assumptions C04_curvature_mapping_meets_spec.
 Print Assumptions C04_mapped_reconstructed_data_meets_spec.
 Print Assumptions C04_data_vector_wtilde_meets_spec.
 Print Assumptions C04_curvature_wtilde_meets_spec.
+Print Assumptions C04_c06_mapper_is_well_formed.
